@@ -35,6 +35,44 @@ func genC09(g *Gen) {
 	p.Sched.Fair = true
 	lat := g.R.Pick([]string{"5", "20", "40"})
 	L, _ := strconv.Atoi(lat)
+	if p.Variant == "burst" {
+		// one client pipelines a very deep burst without reading first; a few requests (always including the oldest) are
+		// answered late, so that thousands of completed replies pile up behind an incomplete head and must all be flushed
+		// when it completes (iovec limits, chunked flushes).
+		cp := ClientPlan{Addr: clientAddr(0), Mode: "pipeline", CloseAfterSent: -1, CloseAfterReplies: -1}
+		n := []int{1700, 2100, 2600, 3100, 3300, 4200, 5200}[g.R.Intn(7)] + g.R.Intn(40)
+		slow := map[int]bool{0: true}
+		for i := g.R.Intn(3); i > 0; i-- {
+			slow[g.R.Intn(n-1100)] = true
+		}
+		// "lonely" mode: the late requests are the only traffic of their master, so nothing is queued behind them on that
+		// backend connection and the LAST completion of the whole burst has more than a thousand finished replies behind it
+		lonely := g.R.Pct(60)
+		t := &p.Topos[0]
+		slotOn := func(first bool) int {
+			for {
+				s := g.R.Intn(16384)
+				if (t.Owner(s).Addr == t.Nodes[0].Addr) == first {
+					return s
+				}
+			}
+		}
+		for ri := 0; ri < n; ri++ {
+			tok := Tok(0, ri)
+			sfx := ""
+			if slow[ri] {
+				sfx = "~D" + g.R.Pick([]string{"60", "150", "400"})
+			}
+			slot := -1
+			if lonely {
+				slot = slotOn(slow[ri])
+			}
+			cp.Reqs = append(cp.Reqs, g.Single(tok, g.R.Pick([]string{"get", "incr", "llen"}), Key(tok, 0, slot, sfx)))
+		}
+		p.Clients = append(p.Clients, cp)
+		p.Notes = append(p.Notes, fmt.Sprintf("burst of %d pipelined requests, %d answered late", n, len(slow)))
+		return
+	}
 	nc := g.R.Range(1, 2)
 	for ci := 0; ci < nc; ci++ {
 		// gap below, equal to, above the backend latency
@@ -113,6 +151,26 @@ func runC09(d *Driver, res *Result) {
 					c.Idx, i, doneRound, doneAt, i, c.ReplyRound[i], c.ReplyAt[i], lag, lagMs)
 				break
 			}
+		}
+	}
+	if d.P.Variant == "burst" && len(d.Clients) == 1 {
+		// reach: how many later requests were already complete when the oldest one completed
+		c := d.Clients[0]
+		headRound := 0
+		for _, r := range d.recsFor(c.Plan.Reqs[0].Tok) {
+			if r.RelRound > headRound {
+				headRound = r.RelRound
+			}
+		}
+		byTok := map[string]int{}
+		for _, r := range d.C.Log {
+			if r.Kind == "data" && r.Released && r.RelRound < headRound && len(r.Tokens) > 0 {
+				byTok[r.Tokens[0]]++
+			}
+		}
+		d.Counters["c09_burst_max_complete_behind_head"] = len(byTok)
+		if len(byTok) > 1024 {
+			d.Counters["c09_burst_over_1024_behind_head"] = 1
 		}
 	}
 	d.StdReplyCheck("C09", Relax{AllowMissing: true})
